@@ -16,6 +16,7 @@ import json
 import math
 import os
 import re
+import threading
 
 from common import zlit, blit, llit, olit
 from gridlib import GridCase, frac
@@ -256,14 +257,14 @@ class Observer(object):
         self.orig = (ct.TileManager.load_tile_coord, ct.TileManager.load_tile_coords)
 
         def load_tile_coord(tm, tile_coord, dimensions=None, with_metadata=False):
-            obs.loads.append(('one', tm.grid.name, tile_coord))
+            obs.loads.append(('one', tm.grid.name, tile_coord, threading.current_thread().name))
             t = ct.Tile(tile_coord)
             t.source = BlankImageSource(size=(1, 1), image_opts=ImageOptions(format='png', transparent=True))
             return t
 
         def load_tile_coords(tm, tile_coords, dimensions=None, with_metadata=False):
             coords = list(tile_coords)
-            obs.loads.append(('many', tm.grid.name, coords))
+            obs.loads.append(('many', tm.grid.name, coords, threading.current_thread().name))
             tiles = ct.TileCollection(coords)
             for t in tiles.tiles:
                 if t.coord is not None:
@@ -477,6 +478,9 @@ class Run(object):
         self.wmsc = ([], [])
         self.kml = ([], [])
         self.svcgrid = ([], [])
+        self.addr_log = []
+        self.sched = ([], [])
+        self.app_seq = 0
         self.known = {}
 
     def add(self, table, term, desc):
@@ -501,10 +505,18 @@ def observed_coord(status, loads):
     return ('junk', 'status %r loads %r' % (status, loads))
 
 
-def check_address(R, st, srv, service, addr_term, url, client_rect, addr_desc, advertised, known_sig=None, known_cond=False):
-    """request one address; oracle rectangle-from-document == rectangle of the loaded tile; register the Coq cases"""
+def check_address(R, st, srv, service, addr_term, url, client_rect, addr_desc, advertised, known_sig=None, known_cond=False,
+                  result=None, schedule=None):
+    """request one address; oracle rectangle-from-document == rectangle of the loaded tile; register the Coq cases.
+    result / schedule: the answer was obtained under a two-request schedule (run_pair) instead of a sequential request"""
     ctx, gc = R.ctx, st.gc
-    status, ctype, body, loads = get(R.app, R.obs, url)
+    if result is None:
+        status, ctype, body, loads = get(R.app, R.obs, url)
+        if advertised and service in ('tms', 'tiles', 'kml'):
+            R.addr_log.append((st, srv, service, addr_term, url, client_rect, addr_desc, advertised, known_sig, known_cond))
+    else:
+        status, ctype, body, loads = result
+        addr_desc = list(addr_desc) + ['schedule', schedule]
     kind, c = observed_coord(status, loads)
     nontrivial = st.gc.ul or st.skip_first or st.sqrt2 or st.ne or st.extent_differs or any(misalign(st, l) != 0 for l in range(len(gc.res)))
     ctx.case((json.dumps(st.spec.describe(), sort_keys=True), service, srv, addr_desc), nontrivial,
@@ -512,6 +524,8 @@ def check_address(R, st, srv, service, addr_term, url, client_rect, addr_desc, a
               'loaded': c if kind == 'ok' else loads})
     ctx.count('svc=' + service)
     d = rep(st, service, addr_desc, url=url, tms_origin=srv, status=status, loaded=repr(loads))
+    if schedule:
+        d['schedule'] = schedule
     if kind == 'junk':
         ctx.fail(service + ':unexpected-answer', '%s answered %s for %s' % (service, c, url), d)
         obs_term = '(Some (-7, -7, -7))'
@@ -944,6 +958,112 @@ def run_app(R, layers, tms_origin, idx0):
         do_wmts(R, st, tms_origin, rest_sets, rest_layers, 'rest')
         do_wmts(R, st, tms_origin, kvp_sets, kvp_layers, 'kvp')
         do_wmsc(R, st, wmsc.get(st.spec.name))
+    R.app_seq += 1
+    R.app_table = 'app%d' % R.app_seq
+    R.defs.append('Definition %s : layer_table := %s.' % (
+        R.app_table, llit(states, lambda st: '(%s, %d, %s)' % (st.lname[1:], st.spec.epsg, st.lname))))
+    do_pairs(R, tms_origin)
+
+
+def run_pair(R, url_a, url_b):
+    """Two requests in two threads against the same WSGI application, gated at Server.parse_request:
+    A is parsed, then B is parsed, then A is handled, then B is handled.  -> (result of A, result of B)"""
+    from webtest import TestApp
+    import mapproxy.service.base as base
+    wsgi = R.app.app
+    gates = {'c02-A': (threading.Event(), threading.Event()), 'c02-B': (threading.Event(), threading.Event())}
+    orig = base.Server.parse_request
+    out = {}
+
+    def gated(self, req):
+        g = gates.get(threading.current_thread().name)
+        try:
+            return orig(self, req)
+        finally:
+            if g:
+                g[0].set()
+                g[1].wait(20)
+
+    def worker(url):
+        name = threading.current_thread().name
+        try:
+            r = TestApp(wsgi).get(url, expect_errors=True)
+            out[name] = (r.status_int, r.content_type, r.body)
+        except Exception as e:  # noqa
+            out[name] = ('raised:' + type(e).__name__, None, b'')
+        finally:
+            gates[name][0].set()
+
+    del R.obs.loads[:]
+    base.Server.parse_request = gated
+    try:
+        ta = threading.Thread(target=worker, args=(url_a,), name='c02-A', daemon=True)
+        tb = threading.Thread(target=worker, args=(url_b,), name='c02-B', daemon=True)
+        ta.start()
+        gates['c02-A'][0].wait(20)      # A parsed
+        tb.start()
+        gates['c02-B'][0].wait(20)      # B parsed
+        gates['c02-A'][1].set()         # A handled
+        ta.join(30)
+        gates['c02-B'][1].set()         # B handled
+        tb.join(30)
+    finally:
+        base.Server.parse_request = orig
+        for g in gates.values():
+            g[1].set()
+    loads = list(R.obs.loads)
+    res = []
+    for name in ('c02-A', 'c02-B'):
+        st_, ct_, body_ = out.get(name, ('raised:hang', None, b''))
+        res.append((st_, ct_, body_, [l for l in loads if l[3] == name]))
+    return res
+
+
+def do_pairs(R, srv):
+    """Request isolation: the answer for an address must not depend on another request that is parsed between the parsing and
+    the handling of this one (the model's `served` is a function of the address alone).  Pairs of advertised TMS / tiles / KML
+    addresses of different layers / grid path elements are run under the schedule of run_pair and go through the same oracle
+    and the same `served` correspondence as the sequential requests."""
+    ctx, rng = R.ctx, R.ctx.rng
+    log, R.addr_log = R.addr_log, []
+    if len(log) < 2:
+        return
+    n = ctx.n(6, 30)
+    tries = 0
+    while n > 0 and tries < 200:
+        tries += 1
+        a, b = rng.choice(log), rng.choice(log)
+        def grid_element(url):
+            parts = url.split('?')[0].split('/')
+            return parts[4] if parts[1] == 'tms' else parts[3]
+        if a[0] is b[0] or grid_element(a[4]) == grid_element(b[4]):
+            continue
+        n -= 1
+        if rng.random() < 0.4:
+            # B without grid path element: TileServer / KMLServer try <layer>_EPSG900913 and <layer>_EPSG4326
+            b = list(b)
+            b[4] = re.sub(r'^(/tms/1\.0\.0/[^/]+|/tiles/[^/]+|/kml/[^/]+)/[^/]+/', r'\1/', b[4], count=1)
+            b[7] = b[0].spec.epsg in (900913, 4326)
+            b = tuple(b)
+        ra, rb = run_pair(R, a[4], b[4])
+        sched = 'A parsed, B parsed, A handled, B handled; A=%s B=%s' % (a[4], b[4])
+        ctx.count('svc=pair')
+        check_address(R, *a, result=ra, schedule=sched)
+        if b[7]:
+            # (a request without grid path element for a layer that has neither a 900913 nor a 4326 grid does not reach the layer:
+            # 'unknown layer'; it is compared with the request model below only)
+            check_address(R, *b, result=rb, schedule=sched)
+
+        # the schedule itself goes to the request / schedule model (run_schedule): both answers must be the model's
+        def req_term(x):
+            ge = re.match(r'^[A-Za-z]+(\d+)$', grid_element(x[4]))
+            return '(mkReq %s %s %s %s)' % (blit(x[2] == 'kml'), x[0].lname[1:], olit(int(ge.group(1)) if ge else None), x[3])
+
+        def obs_term(r):
+            kind, c = observed_coord(r[0], r[3])
+            return olist_coord(c) if kind == 'ok' else '(Some (-7, -7, -7))'
+        R.add(R.sched, '(%s, %s, %s, %s, %s, %s)' % (R.app_table, OREQ[srv], req_term(a), req_term(b), obs_term(ra), obs_term(rb)),
+              {'schedule': sched, 'A': {'url': a[4], 'status': ra[0], 'loaded': repr(ra[3])}, 'B': {'url': b[4], 'status': rb[0], 'loaded': repr(rb[3])}})
 
 
 # ----------------------------------------------------------------------------- pixels: content of the returned tile
@@ -1270,6 +1390,12 @@ def run(ctx):
                    "fun c => let '(s, d) := c in tms_doc_eqb (tms_tilemap s) d", lambda i: R.tmsdoc[1][i], defs=defs)
     ctx.corr_check('wmts_matrix_set', imports, 'tlayer * Z * option (list tile_matrix)', R.wmtsdoc[0],
                    "fun c => let '(s, tol, d) := c in omatrices_close tol (wmts_matrix_set s) d", lambda i: R.wmtsdoc[1][i], defs=defs)
+    ctx.corr_check('schedule', imports, 'layer_table * origin_req * treq * treq * option coord * option coord', R.sched[0],
+                   "fun c => let '(t, srv, ra, rb, oa, ob) := c in "
+                   "let reqs := fun i : nat => match i with O => ra | _ => rb end in "
+                   "let st := run_schedule t srv reqs [RParse 0; RParse 1; RHandle 0; RHandle 1]%nat in "
+                   "opt_eqb ocoord_eqb (answer_of st 0%nat) (Some oa) && opt_eqb ocoord_eqb (answer_of st 1%nat) (Some ob)",
+                   lambda i: R.sched[1][i], defs=defs)
     ctx.corr_check('svc_grid', imports, 'tlayer * list Z * option bbox', R.svcgrid[0],
                    "fun c => let '(s, ils, b) := c in list_eqb Z.eqb (map (internal_level s) [0; 1; 2; 3]) ils && opt_eqb bbox_eqb (svc_bbox s) b",
                    lambda i: R.svcgrid[1][i], defs=defs)
